@@ -115,6 +115,23 @@ Fixpoint one_char (f : rflags) (r : re) (c : N) : bool :=
   | _ => false
   end.
 
+(* The greedy repeat loop, generic in the matcher of its body.  `last` is the position at
+   which the previous iteration started: an iteration beyond the minimum is only attempted
+   when the previous one consumed something (sre's MAX_UNTIL rule). *)
+Fixpoint rep_loop {A} (body : st -> (st -> option A) -> option A) (mn : nat) (mx : option nat)
+         (k : st -> option A) (fuel cnt : nat) (last : option nat) (s : st) {struct fuel} : option A :=
+  match fuel with
+  | O => None
+  | S fuel' =>
+      let under_max := match mx with None => true | Some m => Nat.ltb cnt m end in
+      let fresh := match last with Some p => negb (Nat.eqb p (pos s)) | None => true end in
+      let more :=
+        if under_max && (Nat.ltb cnt mn || fresh)
+        then body s (fun s' => rep_loop body mn mx k fuel' (S cnt) (Some (pos s)) s')
+        else None in
+      if Nat.leb mn cnt then orelse more (k s) else more
+  end.
+
 (* CPS backtracking matcher: first success in CPython's priority order. *)
 Fixpoint mt {A} (f : rflags) (r : re) (s : st) (k : st -> option A) {struct r} : option A :=
   match r with
@@ -138,18 +155,7 @@ Fixpoint mt {A} (f : rflags) (r : re) (s : st) (k : st -> option A) {struct r} :
   | Seq a b => mt f a s (fun s' => mt f b s' k)
   | Alt a b => orelse (mt f a s k) (mt f b s k)
   | Rep body mn mx =>
-      (fix loop (fuel : nat) (cnt : nat) (last : option nat) (s : st) {struct fuel} : option A :=
-         match fuel with
-         | O => None
-         | S fuel' =>
-             let under_max := match mx with None => true | Some m => Nat.ltb cnt m end in
-             let fresh := match last with Some p => negb (Nat.eqb p (pos s)) | None => true end in
-             let more :=
-               if under_max && (Nat.ltb cnt mn || fresh)
-               then mt f body s (fun s' => loop fuel' (S cnt) (Some (pos s)) s')
-               else None in
-             if Nat.leb mn cnt then orelse more (k s) else more
-         end) (mn + length (rest s) + 2)%nat O None s
+      rep_loop (fun s0 k0 => mt f body s0 k0) mn mx k (mn + length (rest s) + 2)%nat O None s
   | Grp n a =>
       let p0 := pos s in
       mt f a s (fun s' => k {| pre := pre s'; rest := rest s'; pos := pos s';
